@@ -39,7 +39,10 @@ def write_table(table, d):
     return path
 
 
-def gen_model(rng, n_ops=None, sinks=True, cmds=None, table=None, metadata=False, min_reads=1):
+NAME_POOL = ["A", "a", "B", "b", "C", "D", "E", "F", "G", "H", "Slope", "slope", "Wet", "WET", "Fz", "fz", "Res", "Layer1", "Layer2", "T", "U", "V", "W", "Y", "Z", "k", "K", "m", "M"]
+
+
+def gen_model(rng, n_ops=None, sinks=True, cmds=None, table=None, metadata=False, min_reads=1, pooled_names=True):
     table = table or gen_table(rng)
     commands = []
     pool = {"nonfuzzy": [], "fuzzy": []}
@@ -59,6 +62,10 @@ def gen_model(rng, n_ops=None, sinks=True, cmds=None, table=None, metadata=False
         colvals["In_%s" % col] = [v for v in table["cols"][col]["data"] if v != table["missing"]]
     n_ops = n_ops if n_ops is not None else rng.randint(2, 12)
     choices = list(cmds or cmdgen.ALL)
+    # result names come from a small pool shared by all models of the process (so the same name denotes different kinds of
+    # results in successive programs) and contain pairs that differ only in letter case
+    name_pool = [n for n in NAME_POOL]
+    rng.shuffle(name_pool)
     for k in range(n_ops):
         usable = [c for c in choices if (c in arr.FUZZY_INPUT and pool["fuzzy"]) or (c not in arr.FUZZY_INPUT)]
         if not pool["fuzzy"] and rng.random() < 0.5:
@@ -82,7 +89,7 @@ def gen_model(rng, n_ops=None, sinks=True, cmds=None, table=None, metadata=False
             args["InFieldNames"] = [rng.choice(src) for _ in range(n_in)]
             first = args["InFieldNames"][0]
         args.update(cmdgen.gen_params(rng, cmd, n_in, colvals.get(first)))
-        name = "%s_%d" % (cmd[:6], k)
+        name = name_pool.pop() if (pooled_names and name_pool) else "%s_%d" % (cmd[:6], k)
         commands.append({"result": name, "cmd": cmd, "args": args})
         pool["fuzzy" if cmd in arr.FUZZY_OUTPUT else "nonfuzzy"].append(name)
     if sinks and rng.random() < 0.7:
@@ -184,7 +191,8 @@ def to_ast(model, rng=None, libs=arr.CSV_LIBS):
     cmds = []
     for c in model["commands"]:
         ks = kinds.get(c["cmd"], {})
-        args = [{"name": k, "value": c.get("raw_ast", {}).get(k) or value_ast(v, ks.get(k, "any"), rng)} for k, v in c["args"].items()]
+        alias = c.get("kind_alias", {})
+        args = [{"name": k, "value": c.get("raw_ast", {}).get(k) or value_ast(v, ks.get(alias.get(k, k), "any"), rng)} for k, v in c["args"].items()]
         cmds.append({"result": c["result"], "command": c["cmd"], "args": args, "trail": False})
     return {"commands": cmds}
 
